@@ -42,10 +42,16 @@ IMPL = {
     "scales.len": lambda k, t, o, sem: len(mk(k, t, o, sem)),
     "scales.eq": lambda k, t, o, sem, k2, t2, o2, sem2: mk(k, t, o, sem) == mk(k2, t2, o2, sem2),
     "scales.determine": scales.determine,
+    # the two comparison operators, asked of the same pair of objects
+    "scales.ne": lambda k, t, o, sem, k2, t2, o2, sem2: (lambda x, y: [x == y, x != y])(mk(k, t, o, sem), mk(k2, t2, o2, sem2)),
+    # recognition on a one-shot iterable (iterator, generator, map object) instead of a list
+    "scales.determine_form": lambda form, notes: scales.determine(
+        iter(notes) if form == "iter" else (n for n in notes) if form == "gen" else map(str, notes) if form == "map"
+        else tuple(notes) if form == "tuple" else set(notes)),
 }
 
 def has_model(c):
-    return True
+    return c["fn"] not in ("scales.ne", "scales.determine_form")
 
 def tonics_for(kind, n):
     if kind in FREE or kind == "Diatonic":
@@ -112,6 +118,7 @@ def cases(tier, rng):
     for a in reps:
         for b in reps:
             yield Case("scales.eq", list(a) + list(b), "eq")
+            yield Case("scales.ne", list(a) + list(b), "ne", model=False)
     # scales of ONE class: same tonic (equal), other octave count, other tonic, and tonics that give the same display name but
     # other notes (Chromatic on a major key and on the minor key of the same letter; Diatonic with other half-step places)
     same = []
@@ -127,6 +134,10 @@ def cases(tier, rng):
              (("Diatonic", "D", 1, [2, 6]), ("Diatonic", "D", 2, [2, 6]))]
     for a, b in same:
         yield Case("scales.eq", list(a) + list(b), "eq/same-class")
+        yield Case("scales.ne", list(a) + list(b), "ne/same-class", model=False)
+    for form in ("iter", "gen", "map", "tuple", "set"):
+        for l in (["C", "E", "G"], ["A", "B", "C", "D", "E", "F", "G#"], ["F#"], [], ["Bb", "Eb"], ["C", "C#"]):
+            yield Case("scales.determine_form", [form, l], "determine/form-" + form, model=False)
     pool = [l + a for l in LETTERS for a in ("", "#", "b")]
     for k in range(0, n + 1):
         for sub in itertools.combinations(pool, k):
@@ -218,6 +229,15 @@ def oracle(c, obs):
         s1, s2 = mk(*a[:4]), mk(*a[4:])
         want = s1.ascending() == s2.ascending() and s1.descending() == s2.descending()
         return None if obs is want else "equality does not follow the note lists"
+    if fn == "scales.ne":
+        s1, s2 = mk(*a[:4]), mk(*a[4:])
+        want = s1.ascending() == s2.ascending() and s1.descending() == s2.descending()
+        return None if obs == [want, not want] else "== and != do not both follow the note lists"
+    if fn == "scales.determine_form":
+        if isinstance(obs, Err):
+            return "recognition raised on a %s of names" % a[0]
+        return None if sorted(obs) == spec_determine(a[1]) else \
+            "recognition on a %s of names is not exactly the family scales containing every given note" % a[0]
     if fn == "scales.determine":
         if isinstance(obs, Err):
             return "recognition raised"
